@@ -413,7 +413,9 @@ func (s *handler) handle(ctx context.Context, req request, w func(func(io.Writer
 
 	// /////////////////
 
+	vpoint(s, "h.call.pre", "method", req.Method, "id", req.ID)
 	callResult, err := doCall(req.Method, handler.handlerFunc, callParams)
+	vpoint(s, "h.ret", "method", req.Method, "id", req.ID, "panic", err != nil)
 	if err != nil {
 		rpcError(w, &req, 0, xerrors.Errorf("fatal error calling '%s': %w", req.Method, err))
 		stats.Record(ctx, metrics.RPCRequestError.M(1))
@@ -483,6 +485,7 @@ func (s *handler) handle(ctx context.Context, req request, w func(func(io.Writer
 		log.Errorw("error and res returned", "request", req, "r.err", resp.Error, "res", res)
 	}
 
+	vpoint(s, "h.resp.pre", "method", req.Method, "id", req.ID)
 	withLazyWriter(w, func(w io.Writer) {
 		if err := json.NewEncoder(w).Encode(resp); err != nil {
 			log.Error(err)
@@ -515,6 +518,7 @@ type lazyWriter struct {
 
 func (lw *lazyWriter) Write(p []byte) (n int, err error) {
 	if lw.w == nil {
+		vpoint(lw, "lazy.acquire.pre")
 		acquired := make(chan struct{})
 		go func() {
 			called := false
